@@ -18,49 +18,6 @@ theorem reachable_inv {c : Cfg} {s : State} (h : Reachable c s) : Inv c s := by
   obtain ⟨ops, rfl⟩ := h
   exact inv_run c init ops (inv_init c)
 
-/-- the aggregate has ended: returned, or rethrew the stored exception -/
-def ended (s : State) : Prop := s.ag = Ag.done ∨ ∃ e, s.ag = Ag.failed e
-
-/-- the coroutine of source `k` has run to completion: end of its script, or its last act was a throw -/
-def srcEnded (c : Cfg) (s : State) (k : Nat) : Prop :=
-  c.script k (s.pc k) = none ∨ (0 < s.pc k ∧ ∃ e, c.script k (s.pc k - 1) = some (Act.throw e))
-
-theorem nWith_exists (p : SSt → Bool) (st : Nat → SSt) (n : Nat) (h : 0 < nWith p st n) :
-    ∃ k, k < n ∧ p (st k) = true := by
-  induction n with
-  | zero => simp [nWith] at h
-  | succ n ih =>
-    simp only [nWith] at h
-    by_cases hp : p (st n) = true
-    · exact ⟨n, by omega, hp⟩
-    · simp [hp] at h
-      obtain ⟨k, hk, hpk⟩ := ih h
-      exact ⟨k, by omega, hpk⟩
-
-theorem nWith_none (p : SSt → Bool) (st : Nat → SSt) (n : Nat) (h : ∀ k, k < n → p (st k) = false) :
-    nWith p st n = 0 := by
-  induction n with
-  | zero => rfl
-  | succ n ih => simp [nWith, h n (by omega), ih (fun k hk => h k (by omega))]
-
-theorem started_of_ag {c : Cfg} {s : State} (h : Inv1 c s) (h1 : s.ag ≠ Ag.init) (h2 : ¬ destructing s.ag) :
-    s.started = true := by
-  cases hs : s.started with
-  | true => rfl
-  | false => rcases (h.unstarted hs).2.2 with h | h <;> contradiction
-
-/-- when the aggregate has ended every source has been examined after it ended -/
-theorem ended_all_fin {c : Cfg} {s : State} (h : Inv c s) (he : ended s) (k : Nat) (hk : k < c.n) :
-    s.st k = SSt.fin := by
-  have hc := h.ctl.ended_cnt he
-  have hs : s.started = true := by
-    apply started_of_ag h.ctl <;> rcases he with h | ⟨e, h⟩ <;> simp [h, destructing]
-  have hz := nWith_zero active s.st c.n (by rw [← h.ctl.cntc hs]; exact hc) k hk
-  cases hst : s.st k <;> simp [hst, active] at hz
-  · rfl
-  · have := h.ctl.dropped_only k hst
-    rcases he with h | ⟨e, h⟩ <;> simp [h, destructing] at this
-
 /-- **Per-source order, exactly once (any time).**  What the consumer has received from source `k`, followed by the
 at most one value of `k` waiting in the completion queue, is exactly the sequence of values source `k` has yielded so
 far, in the source's order: nothing lost, nothing duplicated, nothing reordered — whatever the other sources do
@@ -87,21 +44,6 @@ theorem c14_union {c : Cfg} {s : State} (h : Reachable c s) (he : ended s) (k : 
   | val v => simp [hres, isEnd] at hr
   | done => exact Or.inl (hi.vals.res_done k hres)
   | exc e => exact Or.inr ⟨(hi.vals.res_exc k e hres).1, e, (hi.vals.res_exc k e hres).2⟩
-
-theorem count_out_consumed (out : List (Nat × Nat)) (k v : Nat) :
-    out.count (k, v) = (((out.filter (fun p => p.1 == k)).map (·.2))).count v := by
-  induction out with
-  | nil => rfl
-  | cons p out ih =>
-    obtain ⟨a, b⟩ := p
-    by_cases ha : a = k
-    · subst ha
-      by_cases hb : b = v
-      · subst hb; simp [ih]
-      · have : ¬ (a, b) = (a, v) := by simp [hb]
-        simp [ih, hb]
-    · have : ¬ (a, b) = (k, v) := by simp [ha]
-      simp [ih, ha]
 
 /-- **Union as multisets.**  When the aggregate has ended, the multiset of delivered (source, value) pairs is the
 disjoint union of the sources' yields: each pair occurs as often as the source yielded that value, and every
@@ -152,6 +94,30 @@ theorem c14_ends_when_all_ended {c : Cfg} {s : State} (h : Reachable c s) (hl : 
   unfold aggStep finish ended
   simp only [hl, hc, if_true]
   cases s.exp <;> simp
+
+/-- **Ends when and only when all sources have ended.**  At the head of its loop the aggregator leaves the loop
+(returns, or rethrows the stored exception) if and only if every source has been found ended; otherwise it pops (or
+parks for) the next ready source. -/
+theorem c14_ends_iff_all_ended {c : Cfg} {s : State} (h : Reachable c s) (hl : s.ag = Ag.loop) :
+    ended (aggStep c s) ↔ ∀ k, k < c.n → s.st k = SSt.fin := by
+  constructor
+  · intro he k hk
+    have hi := (reachable_inv h).ctl
+    have hs : s.started = true := by apply started_of_ag hi <;> simp [hl, destructing]
+    have hne : ¬ ended s := by unfold ended; simp [hl]
+    by_cases hc : s.count = 0
+    · have hz := nWith_zero active s.st c.n (by rw [← hi.cntc hs]; exact hc) k hk
+      cases hst : s.st k <;> simp [hst, active] at hz
+      · rfl
+      · have := hi.dropped_only k hst
+        simp [hl, destructing] at this
+    · exfalso
+      unfold aggStep at he
+      simp only [hl, hc, if_false] at he
+      split at he
+      · unfold ended at he; simp at he
+      · exact popHandle_not_ended s hne he
+  · exact c14_ends_when_all_ended h hl
 
 /-- **A source's exception removes only that source.**  It is reported at the end: if the aggregate ends without an
 exception then no source threw; if it ends with exception `e` then `e` was thrown by one of the sources (the one
